@@ -4,4 +4,5 @@ pub mod spec;
 pub mod vz;
 pub mod stubs;
 pub mod c01_lwe;
+pub mod c02;
 pub mod generated;
